@@ -55,6 +55,12 @@ CHECKS["C03"] = ("model_checking",
     "Hash seeds are a finite stated subset of 2^32 (the run fails as vacuous unless at least two distinct set iteration orders were exercised); programs come from the skeleton family.",
     "DESIGN.md §3 C03")
 
+CHECKS["C14"] = ("model_checking",
+    "exhaustive enumeration of reference digraphs x kind assignments x reference forms, each program imported in a fresh process; oracle = graph reachability",
+    "Every digraph without self loops over N<=3 nodes (thorough: N=4 up to relabelling) with every assignment of kinds {memento auto, memento explicit, plain} and reference forms bare / module.attr / alias / decorator wrapper (all form assignments for N=2, covering rotations above) is rendered as a real module; for every memento node the reported transitive and direct dependencies and the dependency-graph links are compared with reachability, and every hidden dynamic call and every argument-passed call u=>v, directly and one real static call deeper (u->w=>v, including callees already on the call stack), through plain invocation and every modifier clone, must be refused exactly when v is outside the closure of the calling memento function.",
+    "A function is never its own dependency (self entries and self links excluded); explicit-version callers are exempt from enforcement as documented; graphs beyond 4 nodes are not enumerated.",
+    "DESIGN.md §3 C14")
+
 PENDING = {}
 
 
